@@ -4,7 +4,7 @@ from __future__ import annotations
 import ast
 from typing import Dict, List, Optional
 
-from ..collect import Path, callee_is, run_paths
+from ..collect import Path, callee_is, inline_except, run_paths
 from ..common import construct, where
 from ..flow import NONE, Value, contains, show, subterms
 from ..fold import Folder, NotConst
@@ -381,7 +381,7 @@ def gateway_url_branches(p: Program, rep: Report, rule: str) -> None:
         raise AnalysisError("URL.__init__ vanished")
     rep.analysed(init.fq)
     # ---------------------------------------------------------------- R18.1
-    paths, col, it = run_paths(p, init, url)
+    paths, col, it = run_paths(p, init, url, inline=inline_except("_build_url"))
     rep.cfg_paths += len(paths)
     seen = {}
     for pa in paths:
